@@ -47,6 +47,7 @@ type Lazy struct {
 	Via    *Closure // copy function applied when forced (nil: structural deep copy)
 	deps   []*Lazy // copies to materialise as soon as this value is forced
 	frozen string
+	topDoc bool
 }
 type Closure struct {
 	Fn   *ssa.Function
